@@ -63,6 +63,17 @@ def _large_work(args) -> dict:
                         gen.nodes = min(gen.nodes, 40)   # every distinct element gets a node budget of its own
                         distinct.append(gen.type(tt["element"], el, depth + 1, None))
                     gen.shape = None
+                    # ... and the sparse shapes: the required properties plus exactly one optional one, twice each (unions)
+                    et = gen.m.resolve_alias(tt["element"])
+                    if et["kind"] == "reference" and et["name"] in gen.m.structs:
+                        for p_ in [p_ for p_ in gen.m.flat_props(et["name"]) if p_.get("optional")][:30]:
+                            for rep in range(3):
+                                gen.solo, gen.shape = p_["name"], ("min" if rep == 0 else None)   # None: alternatives of a union vary
+                                gen.nodes = min(gen.nodes, 40)
+                                try:
+                                    distinct.append(gen.type(tt["element"], el, depth + 1, None))
+                                finally:
+                                    gen.solo, gen.shape = None, None
                     return tvgen.L([distinct[i % len(distinct)] for i in range(n_el)])
                 finally:
                     gen.shape = None
@@ -80,7 +91,8 @@ def _large_work(args) -> dict:
                     lctx.finding((f[0], f[1], f"array-of-{n_el}"), f[3], case)
 
             try:
-                mini(tvgen.value_strategy(sub.objects, root, tvgen.GenCfg(route=route, target=target, max_nodes=120)), 1,
+                # two examples: Hypothesis's first one is the simplest (first alternative of every union)
+                mini(tvgen.value_strategy(sub.objects, root, tvgen.GenCfg(route=route, target=target, max_nodes=120)), 2,
                      (seed, "C03-large", locus, valuecheck.root_name(root), n_el), one)
             except RecursionError:
                 continue
